@@ -11,3 +11,4 @@ open GrVerif.Props.C03
 #print axioms indices_are_a_permutation
 #print axioms glyph_ids_are_real_glyphs
 #print axioms every_opcode_keeps_glyph_ids
+#print axioms silf_call_keeps_stream
